@@ -1,6 +1,7 @@
 (* C16 — lemmas about the variants of Variants.v.  Final statements: Property.v, Part D. *)
 From Coq Require Import List ZArith Bool Lia.
 From Verif Require Import C16.Model C16.Spec C16.Proofs C16.ProofsAll C16.Variants.
+From Verif Require Import C16.Export C16.ExportSpec C16.ExportProofs.
 Import ListNotations.
 Open Scope Z_scope.
 
@@ -54,14 +55,32 @@ Proof.
   - destruct j; simpl in Hp, Hd; discriminate.
 Qed.
 
-(* any detector that accepts at least one string exposes it *)
+(* any detector that accepts at least one string exposes it.  Witness (Audit 2:
+   a natural one, not a root leaf): the document {"id": s}, no exclusion; the
+   leaf at position [0], path [id]. *)
+Definition k_id : bytes := [105;100].
+
+Lemma descend_single : forall k v ps q x,
+  is_prim v = true -> descend (JObj [(k, v)]) ps = Some (q, x) -> is_prim x = true ->
+  q = [PKey k] /\ x = v.
+Proof.
+  intros k v ps q x Hv Hd Hx.
+  destruct ps as [|i ps].
+  - simpl in Hd. inversion Hd; subst. discriminate Hx.
+  - destruct i as [|i].
+    + simpl in Hd. destruct (descend v ps) as [[p w]|] eqn:E; [|discriminate Hd].
+      apply descend_prim_root in E; [|exact Hv]. destruct E as (_ & -> & ->).
+      inversion Hd; subst. split; reflexivity.
+    + simpl in Hd. destruct i; discriminate Hd.
+Qed.
+
 Lemma hash_once_refuted : forall d s, d s = true -> ~ hides_for (LHashOnce d).
 Proof.
   intros d s Hd Hh.
-  specialize (Hh (fun t => 0 :: t) [] (JStr s) [] [] (JStr s)).
+  specialize (Hh (fun t => 0 :: t) [] (JObj [(k_id, JStr s)]) [0%nat] [PKey k_id] (JStr s)).
   unfold obfuscate_json_v in Hh. simpl in Hh. rewrite Hd in Hh.
-  destruct (Hh eq_refl eq_refl) as (ps' & x & Hx & _ & Hc).
-  apply descend_prim_root in Hx; [|reflexivity]. destruct Hx as (_ & _ & ->).
+  destruct (Hh eq_refl eq_refl) as (ps' & x & Hx & Hp & Hc).
+  apply descend_single in Hx; [|reflexivity|exact Hp]. destruct Hx as (_ & ->).
   destruct Hc as [[(e & p & Hin & _) _] | [_ Hw]].
   - destruct Hin.
   - simpl in Hw. injection Hw as Hw. apply (f_equal (@length Z)) in Hw. simpl in Hw. lia.
@@ -78,14 +97,137 @@ Proof.
 Qed.
 
 (* any re-printing of number tokens that changes at least one token breaks
-   "kept verbatim" *)
+   "kept verbatim".  Witness (Audit 2: a natural one): the document {"id": tok}
+   with the exclusion ".id"; the node at position [0], path [id]. *)
+Definition e_dot_id : bytes := [46;105;100].
+
 Lemma rebuild_excluded_refuted : forall r tok,
   r tok <> tok -> ~ keeps_excluded_for (LRebuildExcluded r).
 Proof.
   intros r tok Hr Hk.
-  specialize (Hk (fun t => t) [[]] (JNum tok []) [] [] (JNum tok []) eq_refl eq_refl).
-  assert (Hex : on_excluded [[]] []).
-  { exists [], []. split; [left; reflexivity|]. split; [exists []; reflexivity|reflexivity]. }
+  specialize (Hk (fun t => t) [e_dot_id] (JObj [(k_id, JNum tok [])]) [0%nat] [PKey k_id]
+                 (JNum tok []) eq_refl eq_refl).
+  assert (Hex : on_excluded [e_dot_id] [PKey k_id]).
+  { apply on_excluded_iff. reflexivity. }
   specialize (Hk Hex). unfold obfuscate_json_v in Hk. simpl in Hk.
   injection Hk as Hk. exact (Hr Hk).
+Qed.
+
+(* ---- the call sites as a whole with the switch (Audit 2, item 22) ---- *)
+
+Lemma obfuscate_body_v_same : forall v H en rq excl body parsed,
+  (forall j, keep v j = j) -> (forall s, hash_str v H s = H s) ->
+  obfuscate_body_v v H en rq excl body parsed = obfuscate_body H en rq excl body parsed.
+Proof.
+  intros v H en rq excl body parsed Hk Hs.
+  unfold obfuscate_body_v, obfuscate_body, collector_body, obfuscate_json_v, obfuscate_json.
+  destruct (negb en); [reflexivity|]. destruct body as [|b body']; [reflexivity|].
+  destruct parsed as [j|]; [|rewrite Hs; reflexivity].
+  rewrite (obf_v_same v H _ Hk Hs). reflexivity.
+Qed.
+
+Lemma obfuscate_body_v_head : forall H en rq excl body parsed,
+  obfuscate_body_v LHead H en rq excl body parsed = obfuscate_body H en rq excl body parsed.
+Proof. intros. apply obfuscate_body_v_same; reflexivity. Qed.
+
+Lemma plugin_body_v_head : forall H en excl body parsed,
+  plugin_body_v LHead H en excl body parsed = plugin_body H en excl body parsed.
+Proof.
+  intros H en excl body parsed. unfold plugin_body_v, plugin_body.
+  destruct (negb en); [reflexivity|]. destruct parsed as [j|]; [|reflexivity].
+  rewrite obfuscate_json_v_head. reflexivity.
+Qed.
+
+Lemma body_hides_head : body_hides obfuscate_body.
+Proof.
+  intros H request excl s.
+  pose proof (har_body_head_hidden H (mkConfig None true excl) request s eq_refl) as Hh.
+  rewrite har_body_head in Hh. exact Hh.
+Qed.
+
+Lemma body_hides_ext : forall f g,
+  (forall H rq excl body parsed, f H true rq excl body parsed = g H true rq excl body parsed) ->
+  body_hides g -> body_hides f.
+Proof. intros f g E Hg H request excl s. rewrite E. apply Hg. Qed.
+
+Lemma body_hides_v_head : body_hides (obfuscate_body_v LHead).
+Proof.
+  apply (body_hides_ext _ obfuscate_body); [|exact body_hides_head].
+  intros. apply obfuscate_body_v_head.
+Qed.
+
+(* the detector on the TEXT path (ObfuscateString of the seeded change C16-9): a
+   non-empty body that does not parse and that the detector accepts leaves as it is *)
+Lemma hash_once_text_refuted : forall d s,
+  s <> [] -> d s = true -> ~ body_hides (obfuscate_body_v (LHashOnce d)).
+Proof.
+  intros d s Hn Hd Hb.
+  specialize (Hb (fun t => 0 :: t) true [] (mkSide None EncNone s None None)).
+  destruct s as [|c s']; [congruence|].
+  unfold hidden_body, obfuscate_body_v in Hb. cbn in Hb. rewrite Hd in Hb.
+  destruct Hb as [[E _]|[_ E]]; [discriminate E|].
+  apply (f_equal (@length Z)) in E. simpl in E. lia.
+Qed.
+
+(* ... and on the JSON path of the same call site (any accepted string, the
+   empty one included) *)
+Lemma not_hidden_self : forall s,
+  ~ leaves_hidden (fun t => 0 :: t) [] (JStr s) (JStr s).
+Proof.
+  intros s Hl.
+  destruct (Hl [] [] (JStr s) eq_refl eq_refl) as (ps' & x & Hx & _ & Hc).
+  apply descend_prim_root in Hx; [|reflexivity]. destruct Hx as (_ & _ & ->).
+  destruct Hc as [[(e & p & Hin & _) _] | [_ Hw]].
+  - destruct Hin.
+  - simpl in Hw. injection Hw as Hw. apply (f_equal (@length Z)) in Hw. simpl in Hw. lia.
+Qed.
+
+Lemma hash_once_body_refuted : forall d s,
+  d s = true -> ~ body_hides (obfuscate_body_v (LHashOnce d)).
+Proof.
+  intros d s Hd Hb.
+  specialize (Hb (fun t => 0 :: t) true [] (mkSide None EncNone [0] (Some (JStr s)) None)).
+  unfold hidden_body, obfuscate_body_v, obfuscate_json_v in Hb. cbn in Hb. rewrite Hd in Hb.
+  destruct Hb as [_ (j & Ej & Hl)]. injection Ej as <-.
+  exact (not_hidden_self s Hl).
+Qed.
+
+Lemma hash_once_body_hides_iff : forall d,
+  body_hides (obfuscate_body_v (LHashOnce d)) <-> (forall s, d s = false).
+Proof.
+  intro d. split.
+  - intros Hb s. destruct (d s) eqn:E; [|reflexivity].
+    exfalso. exact (hash_once_body_refuted d s E Hb).
+  - intro Hd. apply (body_hides_ext _ obfuscate_body); [|exact body_hides_head].
+    intros. apply obfuscate_body_v_same; [reflexivity|].
+    intro s. simpl. rewrite Hd. reflexivity.
+Qed.
+
+(* ---- seeded change C16-12: the "whole body excluded" fast path ---- *)
+
+(* witness: response exclusion `$.response.body[]` (the items of a ROOT ARRAY),
+   response body {"a":"s"} - an object: nothing of it lies on or under "[]" *)
+Definition e_resp_items : bytes := pre_response ++ [c_lbr; c_rbr].
+
+Lemma fast_path_refuted : ~ body_hides obfuscate_body_fast.
+Proof.
+  intro Hb.
+  specialize (Hb (fun _ => []) false [e_resp_items]
+                 (mkSide None EncNone [0] (Some (JObj [([97], JStr [115])])) None)).
+  unfold hidden_body in Hb. cbn in Hb.
+  destruct Hb as [_ (j & Ej & Hl)]. injection Ej as <-.
+  destruct (Hl [0%nat] [PKey [97]] (JStr [115]) eq_refl eq_refl)
+    as (ps' & x & _ & _ & [[Hex _]|[_ Ew]]).
+  - apply on_excluded_iff in Hex. vm_compute in Hex. discriminate Hex.
+  - discriminate Ew.
+Qed.
+
+(* the fast path is /repo wherever it does not fire *)
+Lemma fast_path_same_when_not_fired : forall H en rq excl body parsed,
+  whole_body_excluded rq excl = false ->
+  obfuscate_body_fast H en rq excl body parsed = obfuscate_body H en rq excl body parsed.
+Proof.
+  intros H en rq excl body parsed Hw. unfold obfuscate_body_fast. rewrite Hw.
+  unfold obfuscate_body. destruct (negb en); [reflexivity|].
+  destruct body; reflexivity.
 Qed.
